@@ -794,7 +794,7 @@ def bool_family(rng, thorough, per_policy=32):
     if thorough:
         shapes = d1 + d2 + [('ENot', s) for s in d2] + bool_depth3_sample(rng, 1200, d2)
     else:
-        shapes = d1 + [rng.choice(d2) for _ in range(140)] + bool_depth3_sample(rng, 139, d2)
+        shapes = d1 + [rng.choice(d2) for _ in range(92)] + bool_depth3_sample(rng, 123, d2)
     pols = []
     for i in range(0, len(shapes), per_policy):
         pols.append((bool_policy(shapes[i:i + per_policy], first=i), shapes[i:i + per_policy]))
